@@ -92,5 +92,26 @@ def run(rep: Report, tier: str) -> None:
                                 f"threads are rounded differently depending on how the rows are distributed; the same input gives different results under another thread count or memory limit"))
     rep.floor("R15.4 additive aggregate templates", n154, 2)
     rep.analysed = dict(stats, premise=prem)
+    # ---- R15.5 a VTL range window is emitted as RANGE: rows that tie on the ORDER BY key are peers, not a sequence in physical order ----
+    rep.rule("R15.5", "window frames: `range` -> RANGE and `data points` -> ROWS with the same offsets, for every frame shape (ties under ROWS follow the physical / thread-dependent order)")
+    from sa.checks.c06 import window_frames
+    window_frames(P, rep, "R15.5")
+    # ---- R15.6 no sampled / randomised SQL decides what is done to the data ----
+    rep.rule("R15.6", "no SAMPLE / TABLESAMPLE / random() in SQL the engine emits (a sampled probe gives a different answer from run to run)")
+    n6 = 0
+    for sk in sqlx.iter_skeletons(P):
+        toks = [t.up for t in sqlx.tokenize(sk.text)]
+        n6 += 1
+        hit = None
+        for i_, t_ in enumerate(toks):
+            if t_ in ("TABLESAMPLE",) or (t_ == "SAMPLE" and i_ > 0 and toks[i_ - 1] == "USING"):
+                hit = "USING SAMPLE / TABLESAMPLE"
+            if t_ in ("RANDOM", "UUID", "GEN_RANDOM_UUID") and i_ + 1 < len(toks) and toks[i_ + 1] == "(":
+                hit = f"{t_}()"
+        if hit and "REPEATABLE" not in toks:
+            rep.add(Finding("R15.6", f"R15.6/sampled/{sk.where}", sk.module.rel, sk.line, sk.where,
+                            f"`{' '.join(sk.text.split())[:110]}` uses {hit}: DuckDB seeds it randomly, so what the engine does next (here: whether a column is normalised) differs from run "
+                            f"to run and with the number of threads, for the same input"))
+    rep.instance("R15.6", "sql-skeletons-scanned", nontrivial=False, sample={"skeletons": n6})
     rep.assumptions = ["DuckDB evaluates window functions / aggregates with ORDER BY deterministically when the order is total",
                        "preserve_insertion_order=false: no operator output order may be relied upon (premise read from the source)"]
